@@ -74,7 +74,9 @@ def observe(inst, d, tag):
 
 def random_chain(rng, obs, ty, density=0.5, allow_maint=True, candidates=None):
     """A random connectable chain of non-depot nodes of one type (service trips of ty + maintenance)."""
-    cands = candidates if candidates is not None else list(obs.svc.get(ty, [])) + (list(obs.maint) if allow_maint else [])
+    # (a maintenance slot without tracks hosts nobody: no vehicle can be spawned through it, so it is not part of base chains)
+    maint = [m for m in obs.maint if str(obs.nodes.get(m, {}).get("tracks", "1")) not in ("0",)]
+    cands = candidates if candidates is not None else list(obs.svc.get(ty, [])) + (maint if allow_maint else [])
     cands = sorted(cands, key=lambda n: (obs.start_key(n), n))
     chain = []
     for n in cands:
